@@ -159,3 +159,35 @@ Definition valid_ievent (i : N) (e : ievent) : Prop :=
   match e with IMarket _ => True | IFill f => valid_fill i f end.
 Definition valid_eevent (e : eevent) : Prop :=
   match e with EMarket _ _ => True | EFill f => 0 < f_qty f end.
+
+(* ---- independent specification of the instrument's current price ------------------------------ *)
+
+(** what was delivered, per kind: top-of-book updates and priced public trades with their
+    exchange timestamps *)
+Definition l1_deliveries (h : list mevent) : list (Z * l1book) :=
+  flat_map (fun e => match e with ML1 t l => [(t, l)] | _ => [] end)%list h.
+Definition trade_deliveries (h : list mevent) : list (Z * Qc) :=
+  flat_map (fun e => match e with MTrade t (Some p) => [(t, p)] | _ => [] end)%list h.
+
+(** both connectors that produce OrderBookL1 set last_update_time = time_exchange *)
+Definition mevent_wf (e : mevent) : Prop :=
+  match e with ML1 t l => l1_time l = t | _ => True end.
+
+(** [d] is a delivery with the greatest timestamp (with equal timestamps any of them) *)
+Definition is_latest {V} (ds : list (Z * V)) (d : Z * V) : Prop :=
+  In d ds /\ forall d', In d' ds -> (fst d' <= fst d)%Z.
+
+Definition l1_default : l1book := mkL1 0 None None.
+
+(** reference price of a top-of-book register and a last-trade register: volume-weighted mid
+    when both sides of the book are known, else the last trade price, else none *)
+Definition ref_price (l : l1book) (last : option (Z * Qc)) : option Qc :=
+  match l1_vw_mid l with
+  | Some p => Some p
+  | None => option_map snd last
+  end.
+
+Definition md_run (h : list mevent) : mdata := fold_left md_process h md0.
+
+Definition market_events (h : list ievent) : list mevent :=
+  flat_map (fun e => match e with IMarket m => [m] | IFill _ => [] end)%list h.
